@@ -100,6 +100,13 @@ def step (op : String) (args : List String) : Option String :=
         pure ({ id := id, inUse := (← bool? u), ips := l } : CrdEni)
       | _ => none
     pure ((crdOwner es pod).getD "none")
+  | "meta", [v6, k] => do
+    -- what the instance metadata says about the interface is what the local result reports: gateway and subnet per enabled family
+    let v6 ← bool? v6
+    let k ← k.toNat?
+    if k > 250 then none else
+    let m := metaNetConf v6 k
+    pure s!"{m.gw4} {m.gw6.getD "-"} {m.cidr4} {m.cidr6.getD "-"}"
   | "dp", [t, strip, trunk] => do
     pure (dpStr (getDataPath (← ipType? t) (← strip? strip) (← bool? trunk)))
   | "parse", [t, strip, argIf, pi, pe, ri, re, conf] => do
